@@ -978,13 +978,15 @@ def refs_closed(lines, version):
 
 
 def _step_links(links, a, b):
+    """links (as field lists) usable for the step a -> b, with their overlap read in the direction of the step;
+    a link whose two forms both fit (hairpin-like ends) is listed once per form"""
     x, ox, y, oy = a[:-1], a[-1], b[:-1], b[-1]
     out = []
     for f in links:
         if (f[1], f[2], f[3], f[4]) == (x, ox, y, oy):
-            out.append((tuple(f[1:5]), f[5]))
-        elif (f[3], inv(f[4]), f[1], inv(f[2])) == (x, ox, y, oy):
-            out.append((tuple(f[1:5]), cig_compl(f[5])))
+            out.append((f, f[5]))
+        if (f[3], inv(f[4]), f[1], inv(f[2])) == (x, ox, y, oy):
+            out.append((f, cig_compl(f[5])))
     return out
 
 
@@ -1000,12 +1002,9 @@ def ambiguous_path_steps(lines):
         for i, (a, b) in enumerate(zip(steps, steps[1:])):
             want = "*" if f[3] == "*" else (ovs[i] if i < len(ovs) else "*")
             cands = set()
-            for ends, ov in _step_links(links, a, b):
+            for lf, ov in _step_links(links, a, b):
                 if want == "*" or ov == "*" or cig_ops(ov) == cig_ops(want):
-                    lk = {"f": ends[0], "fo": ends[1], "t": ends[2], "to": ends[3]}
-                    # identify a link with its complement
-                    orig = [x for x in links if tuple(x[1:5]) == ends][0]
-                    cands.add(repr(_link_canon([orig[1], orig[2], orig[3], orig[4], aln_key(orig[5])])))
+                    cands.add(repr(_link_canon([lf[1], lf[2], lf[3], lf[4], aln_key(lf[5])])))
             if len(cands) > 1:
                 return True
     return False
